@@ -229,4 +229,67 @@ def run(ctx):
         if found:
             n_sites += 1
     R.floor("rpc_txinfo_sites", n_sites, 6)
+    # what is read out of the result: "the success flag and return data equal those of the transaction".  The execution path
+    # records `is_success()` of revm's ExecutionResult in the receipt (the reference predicate, read from the receipt
+    # constructor's call site); each simulation result must report the same predicate of its result - not a weaker one such as
+    # "did not halt", which counts a revert as success - and the result's own `output()` as return data
+    from terms import calls_in
+
+    def _preds(t, depth=0):
+        """methods of revm's ExecutionResult a term reads its value through (closures handed to Option / Result adapters included)"""
+        from terms import closures_in_term
+        out = {x[1].split("::")[-1] for x in calls_in(t) if "ExecutionResult" in x[1] or "ResultAndState" in x[1]}
+        if depth < 2:
+            for cid in closures_in_term(t):
+                cl = F.fns.get(cid)
+                if cl is not None and len(cl.blocks) < 12:
+                    out |= set(_preds(origin(cl, {"l": 0, "k": "copy"}), depth + 1))
+        return sorted(out)
+
+    def _negated(t):
+        from terms import subterms
+        return any(x[0] == "un" or (x[0] == "call" and x[1].split("::")[-1] == "not") or x[0] == "bin" for x in subterms(t))
+    ref_pred = None
+    import tablerules as T2
+    st_ = T2.db_fn(F, "set_tx_receipt") if hasattr(T2, "db_fn") else None
+    if st_ is None:
+        import enginerules as ER3
+        st_ = [f_ for f_ in F.fns.values() if f_.name.endswith("Brc20ProgDatabase::set_tx_receipt")]
+        st_ = F.inlined(st_[0]) if st_ else None
+    if st_ is not None:
+        for g_ in [st_] + F.descendants(st_.id):
+            for c_ in g_.calls():
+                if (c_.target_path or "").endswith("TxReceiptED::new") and not g_.is_cleanup(c_.bb):
+                    tg_ = F.fns.get(c_.target_id)
+                    pn_ = (tg_.j.get("param_names") or []) if tg_ else []
+                    if "is_success" in pn_:
+                        ref_pred = _preds(W.resolve(F, g_, origin(g_, c_.args[pn_.index("is_success")])))
+    R.floor("receipt_success_predicate", 1 if ref_pred else 0, 1)
+    n_ro = 0
+    # wherever a simulation result is built (in the two simulation methods, or in a constructor they share)
+    seen_ro = set()
+    for g_ in list(F.body_fns()):
+        name = g_.name.split("::{closure")[0].split("::")[-1]
+        if g_.name.startswith(("test", "tests::")) or "::tests::" in g_.name:
+            continue
+        if True:
+            for bi_, b_ in enumerate(g_.blocks):
+                if b_.get("cleanup"):
+                    continue
+                for s_ in b_["stmts"]:
+                    rv_ = s_.get("rv") or {}
+                    if s_["k"] != "assign" or rv_.get("k") != "agg" or not (rv_.get("adt") or "").endswith("ReadContractResult"):
+                        continue
+                    flds_ = dict(zip(rv_.get("fields", []), rv_.get("ops", [])))
+                    if "status" not in flds_ or "output" not in flds_:
+                        continue
+                    n_ro += 1
+                    ts_ = W.resolve(F, g_, origin(g_, flds_["status"]))
+                    to_ = W.resolve(F, g_, origin(g_, flds_["output"]))
+                    R.ob(ref_pred is not None and _preds(ts_) == ref_pred and not _negated(ts_), "SIBLING", "%s:%s" % (g_.loc["f"], s_.get("line")),
+                         "SIBLING|%s|result-status" % name, "%s reports success as `%s`; the receipt of the executed transaction records %s of the result" % (
+                             name, show(ts_)[:80], ref_pred), sample={"rule": "SIBLING", "site": name, "status": show(ts_)[:60], "reference": ref_pred})
+                    R.ob("output" in _preds(to_), "SIBLING", "%s:%s" % (g_.loc["f"], s_.get("line")), "SIBLING|%s|result-output" % name,
+                         "%s reports return data `%s`, not the result's output()" % (name, show(to_)[:80]), sample={"rule": "SIBLING", "site": name, "output": show(to_)[:60]})
+    R.floor("simulation_result_readouts", n_ro, 1)
     return R
